@@ -13,6 +13,7 @@ import (
 	"io"
 	"math/rand"
 	"net"
+	"net/http"
 	"net/http/httptest"
 	"strings"
 	"sync"
@@ -37,7 +38,7 @@ type Case struct {
 	Churners  int    `json:"churners"`
 	PerPub    int    `json:"perpub"`
 	Rate      int    `json:"rate"`      // flush rate of the subscribers' listener connection
-	Transport string `json:"transport"` // listener | websocket
+	Transport string `json:"transport"` // listener (pipe + write-queueing conn) | websocket (httptest server) | mux-tcp | mux-websocket (the real multiplexing listener on a loopback port)
 	Sizes     string `json:"sizes"`     // small | mixed | large
 	SlowSub   bool   `json:"slowsub"`   // subscribers read in small sips with pauses (their socket writes block)
 	QoS       int    `json:"qos"`
@@ -66,6 +67,40 @@ func broker(readRate int) *vkit.Broker {
 		srv = httptest.NewServer(b.S.VerifHTTPHandler())
 	}
 	return shared
+}
+
+// muxAddr starts (once per flush rate) the broker's real front door on a loopback port: the multiplexing listener with
+// the HTTP matcher (WebSocket upgrades through the broker's own handler) in front of the catch-all MQTT matcher, every
+// accepted socket wrapped in the write-queueing connection with the given flush rate - the production wiring.
+var muxAddrs = map[int]string{}
+var muxBroker *vkit.Broker
+
+func muxAddr(b *vkit.Broker, rate int) string {
+	if muxBroker != b {
+		muxAddrs, muxBroker = map[int]string{}, b
+	}
+	if a, ok := muxAddrs[rate]; ok {
+		return a
+	}
+	l, err := listener.New("127.0.0.1:0", listener.Config{FlushRate: rate})
+	if err != nil {
+		panic(err)
+	}
+	l.SetReadTimeout(120 * time.Second)
+	hs := &http.Server{Handler: b.S.VerifHTTPHandler()}
+	l.ServeAsync(listener.MatchHTTP(), hs.Serve)
+	l.ServeAsync(listener.MatchAny(), func(sub net.Listener) error {
+		for {
+			c, err := sub.Accept()
+			if err != nil {
+				return err
+			}
+			b.S.VerifAttach(c)
+		}
+	})
+	go l.Serve()
+	muxAddrs[rate] = l.Addr().String()
+	return muxAddrs[rate]
 }
 
 // wsConn adapts a gorilla client connection to an io.ReadWriter byte stream (binary messages).
@@ -125,7 +160,23 @@ type endpoint struct {
 
 func dial(b *vkit.Broker, c Case, asSubscriber bool, rng *rand.Rand) (*endpoint, error) {
 	var rw io.ReadWriteCloser
-	if asSubscriber && c.Transport == "websocket" {
+	if asSubscriber && (c.Transport == "mux-tcp" || c.Transport == "mux-websocket") {
+		addr := muxAddr(b, c.Rate)
+		if c.Transport == "mux-websocket" {
+			d := gws.Dialer{Subprotocols: []string{"mqtt"}}
+			conn, _, err := d.Dial("ws://"+addr+"/", nil)
+			if err != nil {
+				return nil, err
+			}
+			rw = &wsConn{c: conn}
+		} else {
+			conn, err := net.Dial("tcp", addr)
+			if err != nil {
+				return nil, err
+			}
+			rw = conn
+		}
+	} else if asSubscriber && c.Transport == "websocket" {
 		d := gws.Dialer{Subprotocols: []string{"mqtt"}}
 		conn, _, err := d.Dial("ws"+strings.TrimPrefix(srv.URL, "http"), nil)
 		if err != nil {
@@ -465,7 +516,7 @@ func TestConcurrentDelivery(t *testing.T) {
 	rng := rand.New(rand.NewSource(vkit.Seed()))
 	for r := 0; r < rounds; r++ {
 		c := Case{Seed: rng.Int63(), Pubs: 2 + rng.Intn(5), Subs: 1 + rng.Intn(3), Churners: rng.Intn(3), PerPub: 300 + rng.Intn(900),
-			Rate: []int{1, 1, 60, 1000}[rng.Intn(4)], Transport: []string{"listener", "listener", "listener", "websocket"}[rng.Intn(4)],
+			Rate: []int{1, 1, 60, 1000}[rng.Intn(4)], Transport: []string{"listener", "listener", "websocket", "mux-tcp", "mux-websocket", "mux-websocket"}[rng.Intn(6)],
 			Sizes: []string{"small", "mixed", "mixed", "large"}[rng.Intn(4)], SlowSub: rng.Intn(2) == 0, QoS: rng.Intn(2)}
 		if c.Sizes == "large" {
 			c.PerPub = 100 + rng.Intn(200)
